@@ -164,7 +164,7 @@ func RunClosed[K any](k *kinds.Kind[K], cfg *Config, res *ev.Result, u kinds.Uni
 						}
 					}
 				}
-				if cfg.Has(MRange) && k.HasRange {
+				if cfg.ClosedAllQueries && cfg.Has(MRange) && k.HasRange {
 					// all ordered pairs of bounds over the universe (present and absent alike)
 					for _, a := range u.Keys {
 						for _, b := range u.Keys {
@@ -175,7 +175,7 @@ func RunClosed[K any](k *kinds.Kind[K], cfg *Config, res *ev.Result, u kinds.Uni
 						}
 					}
 				}
-				if cfg.Has(MPrefix) && k.HasPrefix {
+				if cfg.ClosedAllQueries && cfg.Has(MPrefix) && k.HasPrefix {
 					for _, key := range u.Keys {
 						for _, p := range k.PrefixQueries(r, key) {
 							s.CheckPrefix(p, "closed_derived")
